@@ -39,8 +39,9 @@ let () =
       else if bytes_of_hex again <> expect then Viol "CipherReader.Reset does not restart the key stream"
       else begin
         (* a source that returns its last bytes together with the error delivers the same bytes and error *)
+        let with_data = (tail = "eofdata" || tail = "faildata") in
         let tail = (match tail with "eofdata" -> "eof" | "faildata" -> "fail" | t -> t) in
-        let s = { chunks = (match chunks_of_spec spec p with Some cs -> cs | None -> chunk_by (sizes_of_spec spec (List.length p)) p); tl = (if tail = "fail" then TFail else TEOF) } in
+        let s = { chunks = (match chunks_of_spec ~trailing:(not with_data) spec p with Some cs -> cs | None -> chunk_by (sizes_of_spec spec (List.length p)) p); tl = (if tail = "fail" then TFail else TEOF) } in
         let bl = List.map n_of_int (ints_spec bufs) in
         let (mo, me) = cr_drive (nat_of_int (List.length p + 2)) bl bl { cr_src = s; cr_key = key; cr_pos = BinNums.N0 } [] in
         if mo <> out || me <> Some (if tail = "fail" then EFail else EEOF) then Diff "model cipher reader differs"
